@@ -884,4 +884,148 @@ theorem s_tamper (hA : ArithOK) {cs : Suite} {σ σ' : Signature} {pk : PublicKe
   rw [hn]
   exact (ZMod.intCast_eq_intCast_iff _ _ _).mp h9
 
+/-! ### binding as an explicit representation collision -/
+
+/-- pad an exponent vector with zeros up to the number of bases. -/
+def padTo (n : Nat) (l : List Int) : List Int := l ++ List.replicate (n - l.length) 0
+
+theorem padTo_length {n : Nat} {l : List Int} (h : l.length ≤ n) : (padTo n l).length = n := by
+  unfold padTo; simp; omega
+
+theorem padTo_cons (n : Nat) (m : Int) (l : List Int) : padTo (n + 1) (m :: l) = m :: padTo n l := by
+  unfold padTo; simp
+
+theorem padTo_nil_succ (n : Nat) : padTo (n + 1) [] = 0 :: padTo n [] := by
+  unfold padTo; simp [List.replicate_succ]
+
+theorem padTo_nonneg {n : Nat} {l : List Int} (h : ∀ m ∈ l, 0 ≤ m) : ∀ m ∈ padTo n l, 0 ≤ m := by
+  intro m hm
+  unfold padTo at hm
+  rcases List.mem_append.mp hm with h1 | h1
+  · exact h m h1
+  · rw [(List.mem_replicate.mp h1).2]
+
+theorem rawList_pad (bases msgs : List Int) :
+    (rawList bases (padTo bases.length msgs)).prod = (rawList bases msgs).prod := by
+  induction bases generalizing msgs with
+  | nil => unfold rawList; simp
+  | cons a bases ih =>
+    cases msgs with
+    | nil =>
+      rw [List.length_cons, padTo_nil_succ, rawList_cons, List.prod_cons, ih []]
+      simp
+    | cons m msgs =>
+      rw [List.length_cons, padTo_cons, rawList_cons, rawList_cons, List.prod_cons, List.prod_cons, ih]
+
+/-- the values `a_i^{d_i} mod N` (inverse powers for negative `d_i`). -/
+def repXs (N : Int) (bases ds : List Int) : List Int :=
+  List.zipWith (fun a d => (powMod a d N).getD 1) bases ds
+
+theorem powMod_sub_spec (hA : ArithOK) {N a m m' : Int} (hN : 1 < N) (ha : Int.gcd a N = 1)
+    (hm : 0 ≤ m) (hm' : 0 ≤ m') :
+    a ^ m'.toNat * (powMod a (m - m') N).getD 1 ≡ a ^ m.toNat [ZMOD N] := by
+  by_cases hd : 0 ≤ m - m'
+  · rw [hA.powMod_nonneg a _ N (by omega) hd, Option.getD_some]
+    have : m.toNat = m'.toNat + (m - m').toNat := by omega
+    rw [this, pow_add]
+    exact (Int.ModEq.refl _).mul (Int.mod_modEq _ _)
+  · rw [hA.powMod_neg a _ N (by omega) (by omega)]
+    cases hi : invMod a N with
+    | none => exact absurd ha (hA.invMod_none a N hN hi)
+    | some bi =>
+      obtain ⟨-, -, hmul⟩ := hA.invMod_some a N bi hN hi
+      have h1 : a * bi ≡ 1 [ZMOD N] := by
+        show a * bi % N = 1 % N
+        rw [hmul, Int.emod_eq_of_lt (by omega) hN]
+      simp only [Option.map_some, Option.getD_some]
+      have hk : m'.toNat = m.toNat + (-(m - m')).toNat := by omega
+      rw [hk, pow_add]
+      calc a ^ m.toNat * a ^ (-(m - m')).toNat * (bi ^ (-(m - m')).toNat % N)
+          ≡ a ^ m.toNat * a ^ (-(m - m')).toNat * bi ^ (-(m - m')).toNat [ZMOD N] :=
+            (Int.ModEq.refl _).mul (Int.mod_modEq _ _)
+        _ = a ^ m.toNat * (a * bi) ^ (-(m - m')).toNat := by rw [mul_pow]; ring
+        _ ≡ a ^ m.toNat * 1 ^ (-(m - m')).toNat [ZMOD N] := (Int.ModEq.refl _).mul (h1.pow _)
+        _ = a ^ m.toNat := by simp
+
+theorem rep_core (hA : ArithOK) {N : Int} (hN : 1 < N) (bases M M' : List Int)
+    (hM : M.length = bases.length) (hM' : M'.length = bases.length)
+    (hbases : ∀ a ∈ bases, Int.gcd a N = 1) (h0 : ∀ m ∈ M, 0 ≤ m) (h0' : ∀ m ∈ M', 0 ≤ m) :
+    (rawList bases M').prod * (repXs N bases (List.zipWith (· - ·) M M')).prod ≡
+      (rawList bases M).prod [ZMOD N] := by
+  induction bases generalizing M M' with
+  | nil => unfold rawList repXs; simp
+  | cons a bases ih =>
+    cases M with
+    | nil => simp at hM
+    | cons m M =>
+      cases M' with
+      | nil => simp at hM'
+      | cons m' M' =>
+        have ih' := ih M M' (by simpa using hM) (by simpa using hM')
+          (fun x hx => hbases x (List.mem_cons_of_mem _ hx))
+          (fun x hx => h0 x (List.mem_cons_of_mem _ hx)) (fun x hx => h0' x (List.mem_cons_of_mem _ hx))
+        have hp := powMod_sub_spec hA hN (hbases a (List.mem_cons_self ..))
+          (h0 m (List.mem_cons_self ..)) (h0' m' (List.mem_cons_self ..))
+        simp only [rawList_cons, List.zipWith_cons_cons, repXs, List.prod_cons] at ih' ⊢
+        have := hp.mul ih'
+        refine Int.ModEq.trans ?_ this
+        rw [show ∀ x y z w : Int, x * y * (z * w) = x * z * (y * w) from fun x y z w => by ring]
+
+theorem repXs_length (N : Int) (bases ds : List Int) (hl : ds.length = bases.length) :
+    (repXs N bases ds).length = bases.length := by
+  unfold repXs; rw [List.length_zipWith, hl]; simp
+
+theorem repXs_getElem (hA : ArithOK) {N : Int} (hN : 1 < N) (bases ds : List Int)
+    (hl : ds.length = bases.length) (hbases : ∀ a ∈ bases, Int.gcd a N = 1) (i : Nat)
+    (hi : i < bases.length) :
+    powMod bases[i] (ds[i]?.getD 0) N = some ((repXs N bases ds)[i]?.getD 1) := by
+  have hid : i < ds.length := by omega
+  have hix : i < (repXs N bases ds).length := by rw [repXs_length N bases ds hl]; exact hi
+  rw [List.getElem?_eq_getElem hid, List.getElem?_eq_getElem hix, Option.getD_some, Option.getD_some]
+  obtain ⟨x, hx⟩ := powMod_isSome_of_unit hA hN (hbases _ (List.getElem_mem hi)) ds[i]
+  have : (repXs N bases ds)[i] = (powMod bases[i] ds[i] N).getD 1 := by
+    unfold repXs; rw [List.getElem_zipWith]
+  rw [this, hx, Option.getD_some]
+
+/-- **Binding, as an event.** Two DIFFERENT attribute vectors of the same length accepted under one
+`(e, s, v)` yield an explicit non-trivial relation `Π aᵢ^{mᵢ - m'ᵢ} ≡ 1 (mod N)` among the bases:
+`RepCollision pk.N bases` with witness exponents `mᵢ - m'ᵢ` (zero beyond the vectors). -/
+theorem cl_binding_rep (hA : ArithOK) {cs : Suite} {σ : Signature} {pk : PublicKey}
+    {bases msgs msgs' : List Int} (hN : 1 < pk.N) (hbases : ∀ a ∈ bases, Int.gcd a pk.N = 1)
+    (hb : Int.gcd pk.b pk.N = 1) (hc : Int.gcd pk.c pk.N = 1) (hlen : msgs.length = msgs'.length)
+    (hne : msgs ≠ msgs') (h1 : Accepts cs σ pk bases msgs) (h2 : Accepts cs σ pk bases msgs') :
+    RepCollision pk.N bases := by
+  have hbind := cl_binding hA hN hb hc h1 h2
+  obtain ⟨hl1, hr1, -⟩ := (accepts_iff hA (by omega)).mp h1
+  obtain ⟨hl2, hr2, -⟩ := (accepts_iff hA (by omega)).mp h2
+  have hM := padTo_length hl1
+  have hM' := padTo_length hl2
+  have h0 : ∀ m ∈ padTo bases.length msgs, 0 ≤ m := padTo_nonneg fun m h => (hr1 m h).1
+  have h0' : ∀ m ∈ padTo bases.length msgs', 0 ≤ m := padTo_nonneg fun m h => (hr2 m h).1
+  have hcore := rep_core hA hN bases _ _ hM hM' hbases h0 h0'
+  rw [rawList_pad, rawList_pad] at hcore
+  have hX : (repXs pk.N bases (List.zipWith (· - ·) (padTo bases.length msgs)
+      (padTo bases.length msgs'))).prod ≡ 1 [ZMOD pk.N] := by
+    refine modEq_cancel_left (rawList_gcd hbases msgs') ?_
+    rw [mul_one]
+    exact hcore.trans hbind
+  have hdl : (List.zipWith (· - ·) (padTo bases.length msgs) (padTo bases.length msgs')).length =
+      bases.length := by rw [List.length_zipWith, hM, hM']; simp
+  refine ⟨_, hdl, ?_, _, repXs_length _ _ _ hdl, repXs_getElem hA hN bases _ hdl hbases, ?_⟩
+  · -- some exponent is non-zero
+    have : ∃ i, ∃ h : i < msgs.length, msgs[i] ≠ msgs'[i]'(by omega) := by
+      by_contra hcon
+      push Not at hcon
+      exact hne (List.ext_getElem hlen fun i h1 h2 => hcon i h1)
+    obtain ⟨i, hi, hd⟩ := this
+    have hi' : i < msgs'.length := by omega
+    refine ⟨(List.zipWith (· - ·) (padTo bases.length msgs) (padTo bases.length msgs'))[i]'(by
+      rw [hdl]; omega), List.getElem_mem _, ?_⟩
+    rw [List.getElem_zipWith]
+    unfold padTo
+    rw [List.getElem_append_left hi, List.getElem_append_left hi']
+    omega
+  · rw [foldl_mul_eq_prod, one_mul]
+    exact hX
+
 end Zk.C13
